@@ -44,7 +44,11 @@ pub fn eval_case(case: &Case) -> Result<Vec<(Tri, reference::RSet, bool)>, Outco
         }
         Load::Panicked(p) => return Err(Outcome::Violation(format!("loader panicked: {p}"))),
     };
-    let ev = Evaluator::new(&refrule, EvalOpts::default());
+    // VERIF_EXACT_SELFTEST=1 (development aid): judge against the engine-exact resolution of the
+    // undocumented zones that C01 uses for attribution, to validate that model against the
+    // unoptimised engine
+    let exact = std::env::var("VERIF_EXACT_SELFTEST").is_ok();
+    let ev = Evaluator::new(&refrule, EvalOpts { engine_exact: exact, ..EvalOpts::default() });
     let mut out = vec![];
     NJ_REASONS.with(|r| r.borrow_mut().clear());
     for (i, doc) in case.docs.iter().enumerate() {
@@ -189,6 +193,21 @@ pub fn run(tier: &str, seed: u64) -> i32 {
                 rep.label("rule_with_condition_quantifier");
             }
         },
+    );
+    // everything about one field x every value kind
+    gen::drive(
+        &mut report,
+        3,
+        n / 8,
+        gen::rule_same_field_focus,
+        |rule: &RuleSpec| {
+            if !rule.well_formed() {
+                return vec![];
+            }
+            vec![make_case(rule, gen::same_field_docs("f1"))]
+        },
+        judge,
+        |_, rep| rep.label("same_field_rule"),
     );
     // nested blocks on one holder against objects and arrays of objects
     gen::drive(
